@@ -120,8 +120,13 @@ func TestVerifReplayC17(t *testing.T) {
 			bad = append(bad, "sound import structure failed to load: "+lerr.Error())
 		} else {
 			for k := 0; k < n; k++ {
-				if _, ok := cfg.Tasks["task-"+short[k]]; ok != reach[k] {
+				tk, ok := cfg.Tasks["task-"+short[k]]
+				if ok != reach[k] {
 					bad = append(bad, fmt.Sprintf("definitions of %s present=%v, reachable=%v", rel[k], ok, reach[k]))
+				}
+				// a file taken twice shows as list-valued fields doubled (imports are merged with append)
+				if ok && len(tk.Commands) != 1 {
+					bad = append(bad, fmt.Sprintf("definitions of %s were merged %d times (command list %v)", rel[k], len(tk.Commands), tk.Commands))
 				}
 			}
 		}
